@@ -24,14 +24,17 @@ EXPLANATION = (
 ASSUMPTIONS = [
     "truth table: `dtype == object` ⇔ object; isinstance(dtype, CategoricalDtype) ⇔ category; isinstance(dtype, StringDtype) ⇔ string "
     "(pandas 'str' / 'string[pyarrow]' / 'string[python]'); pandas.api.types.is_numeric_dtype ⇔ {int,uint,float,bool}; "
-    "is_bool_dtype ⇔ bool; is_string_dtype ⇔ {object,string}; is_object_dtype ⇔ object; narwhals dtype.is_numeric() ⇔ "
+    "is_bool_dtype ⇔ bool; is_string_dtype ⇔ string only (for object dtype pandas>=2 inspects the elements, so it is not guaranteed); is_object_dtype ⇔ object; narwhals dtype.is_numeric() ⇔ "
     "{int,uint,float}; dtype.kind: O for object/string/category, i/u/f/b for int/uint/float/bool",
     "a raw data column carries no __formulaic_metadata__ (the base-class fallback is false for it)",
 ]
 
 ISINSTANCE_T = {"CategoricalDtype": {"category"}, "StringDtype": {"string"}, "BooleanDtype": {"bool"}, "ArrowDtype": set()}
 FUNCS = {
-    "is_numeric_dtype": {"int", "uint", "float", "bool"}, "is_bool_dtype": {"bool"}, "is_string_dtype": {"object", "string"},
+    "is_numeric_dtype": {"int", "uint", "float", "bool"}, "is_bool_dtype": {"bool"},
+    # pandas >= 2 decides is_string_dtype for OBJECT dtype by inspecting the elements (False as soon as one is not a str, e.g. None):
+    # it is guaranteed true only for the dedicated string dtypes
+    "is_string_dtype": {"string"},
     "is_object_dtype": {"object"}, "is_categorical_dtype": {"category"}, "is_integer_dtype": {"int", "uint"}, "is_float_dtype": {"float"},
 }
 KIND = {"O": {"object", "string", "category"}, "i": {"int"}, "u": {"uint"}, "f": {"float"}, "b": {"bool"}, "U": set(), "S": set(), "M": set(), "m": set(), "c": set()}
@@ -253,4 +256,30 @@ def r3(ctx):
               ctx.construct(sp, text="sparse levels"), "sparse dummy encoder level handling changed")
 
 
-RULES = [("C08.R1", r1), ("C08.R2", r2), ("C08.R3", r3)]
+def r4(ctx):
+    """Row removal keeps the column's dtype: a categorical dtype (declared level order, unused levels) must survive drop_rows."""
+    P = ctx.project
+    from .c06 import NULLS, first_param_annotation
+    regs = [f for f in P.registrations(f"{NULLS}.drop_rows") if first_param_annotation(f) in ("pandas.Series",)]
+    ctx.floor("C08.R4", len(regs), 1, "drop_rows registrations for pandas.Series")
+    for f in regs:
+        ctx.look()
+        vals = param_names(f.node)[0]
+        bad = [c for c in ast.walk(f.node) if (isinstance(c, ast.Call) and isinstance(c.func, ast.Attribute) and c.func.attr in ("to_numpy", "tolist", "to_list", "astype") and norm(c.func.value) == vals)
+               or (isinstance(c, ast.Attribute) and c.attr == "values" and norm(c.value) == vals)
+               or (isinstance(c, ast.Call) and (dotted(c.func) or "") in ("numpy.array", "numpy.asarray", "list") and c.args and norm(c.args[0]) == vals)]
+        rets = returns_of(f.node)
+        stays = bool(rets) and isinstance(rets[0].value, ast.Subscript) and isinstance(rets[0].value.value, ast.Attribute) and rets[0].value.value.attr in ("iloc", "loc") \
+            and norm(rets[0].value.value.value) == vals or (bool(rets) and isinstance(rets[0].value, ast.Subscript) and norm(rets[0].value.value) == vals)
+        ctx.check(not bad and stays, "C08.R4", "drop_rows[pandas.Series] selects rows of the Series itself (its dtype and declared categories survive)", f.where,
+                  ctx.construct(f"{NULLS}.drop_rows[pandas.Series]", text="dtype preserving"),
+                  f"the Series is rebuilt from raw values (`{norm(bad[0])[:60] if bad else norm(rets[0].value)[:60] if rets else ''}`): a categorical column loses its dtype, so levels "
+                  f"come out sorted and unused levels vanish whenever a row is dropped")
+    # the C() encoder wraps into a Series and then removes rows positionally on it
+    enc = P.func("formulaic.transforms.contrasts.C").locals_named("encoder")
+    t = norm(enc.node)
+    ok = "values = pandas.Series(values.__wrapped__ if isinstance(values, FactorValues) else values)" in t and "values = values.iloc[" in t
+    ctx.check(ok, "C08.R4", "C().encoder removes rows on the Series (dtype preserving)", enc.where, ctx.construct(enc, text="dtype preserving"), "C().encoder changed shape")
+
+
+RULES = [("C08.R1", r1), ("C08.R2", r2), ("C08.R3", r3), ("C08.R4", r4)]
